@@ -21,6 +21,8 @@ enum Elem {
     Assign(&'static str, i64),
     Read(&'static str),
     AddAssign(&'static str, i64),
+    /// `f(k)`: a call of the recording identity function
+    Call(i64),
     Group(Seq),
 }
 
@@ -40,6 +42,7 @@ impl Elem {
             Elem::Assign(v, k) => format!("{} = {}", v, k),
             Elem::Read(v) => v.to_string(),
             Elem::AddAssign(v, k) => format!("{} += {}", v, k),
+            Elem::Call(k) => format!("f({})", k),
             Elem::Group(s) => format!("({})", s.src()),
         }
     }
@@ -50,6 +53,7 @@ impl Elem {
             Elem::Assign(v, k) => Ast::Asg(None, v.to_string(), Box::new(Ast::Lit(RV::Int(*k)))),
             Elem::Read(v) => Ast::Var(v.to_string()),
             Elem::AddAssign(v, k) => Ast::Asg(Some(BinOp::Add), v.to_string(), Box::new(Ast::Lit(RV::Int(*k)))),
+            Elem::Call(k) => Ast::Call("f".into(), Box::new(Ast::Lit(RV::Int(*k)))),
             Elem::Group(s) => s.ast(),
         }
     }
@@ -407,6 +411,8 @@ pub fn run(cfg: &Cfg) -> Report {
         Simple(usize, bool),
         Grouped(usize, usize),
         UnitParens(usize),
+        /// the same options in every slot, so that neighbouring elements can be spelled identically
+        Repeated(usize),
     }
     let mut work = Vec::new();
     for n in 0..=n_simple {
@@ -422,6 +428,9 @@ pub fn run(cfg: &Cfg) -> Report {
     }
     for n in 0..=n_group {
         work.push(Work::UnitParens(n));
+    }
+    for n in 1..=n_group {
+        work.push(Work::Repeated(n));
     }
     let mut stats = par_items(&work, |_, w| {
         let mut st = Stats::new();
@@ -443,6 +452,13 @@ pub fn run(cfg: &Cfg) -> Report {
                     &mut |s| check(s, false, &mut st),
                 );
             },
+            Work::Repeated(n) => {
+                for_each_seq(
+                    n,
+                    &|_| vec![Elem::Empty, Elem::Lit(1), Elem::Assign("a", 1), Elem::Read("a"), Elem::AddAssign("a", 7), Elem::Call(7)],
+                    &mut |s| check(s, false, &mut st),
+                );
+            },
             Work::UnitParens(n) => {
                 for_each_seq(n, &|i| vec![Elem::Empty, Elem::UnitParens, Elem::Lit(i as i64 + 1)], &mut |s| check(s, false, &mut st));
             },
@@ -461,7 +477,7 @@ pub fn run(cfg: &Cfg) -> Report {
     Report {
         property: ID,
         level: "exploration",
-        rule: format!("every separator skeleton in {{',', ';'}}^n, n <= {n_simple}, with every filling of the n+1 slots from {{absent, literal, `a = k`, read of a, `a += k`}}; the same for n <= {n_call} as the argument of a recording function f(...); for n <= {n_group} every skeleton with one slot (each position) holding each of {ngroups} parenthesised nested sequences (depth <= 2) and the other slots from {{absent, literal, assignment}}; and skeletons over {{absent, `()`, literal}}; plus scaling families: sequences of every size 1..20 and up to 129 (quick) / 1..40 and up to 400 (thorough) in five separator patterns, with literals, with an effect in every element, and with an absent element or a nested group at chosen positions. Non-trivial = mixes both separators; each source is enumerated once"),
+        rule: format!("every separator skeleton in {{',', ';'}}^n, n <= {n_simple}, with every filling of the n+1 slots from {{absent, literal, `a = k`, read of a, `a += k`}}; the same for n <= {n_call} as the argument of a recording function f(...); for n <= {n_group} every skeleton with one slot (each position) holding each of {ngroups} parenthesised nested sequences (depth <= 2) and the other slots from {{absent, literal, assignment}}; and skeletons over {{absent, `()`, literal}}; and skeletons of n <= {n_group} separators whose slots all range over the same {{absent, 1, `a = 1`, a, `a += 7`, `f(7)`}} (identically spelled neighbours with effects); plus scaling families: sequences of every size 1..20 and up to 129 (quick) / 1..40 and up to 400 (thorough) in five separator patterns, with literals, with an effect in every element, and with an absent element or a nested group at chosen positions. Non-trivial = mixes both separators; each source is enumerated once"),
         nontrivial_set: "counter:nontrivial-distinct",
         exhaustive: true,
         bound_completed: format!("{n_simple} separators (simple elements), {n_group} with nested groups"),
